@@ -23,6 +23,18 @@ CHECKS = {
          "Seeded random search over multimap operation sequences x 3 key/value families x page/region/cache sizes, with value counts and sizes steered across the inline/subtree limit in both directions; every return value, MultimapValue::len during consumption, and full scans compared with the model after every transaction and reopen.",
          "Trusts the harness model; inline/subtree classification for the non-triviality count is a size estimate.",
          "DESIGN.md 4/C09"),
+ "C06": ("exploration", "stateful model-based property testing with an independent page-accounting oracle (snapshot hook + independent file-format decoder) evaluated after every step",
+         "hist+decoder", "Generated histories; after every transaction boundary allocated == reachable + pending-free exactly, each page once, durable and savepoint trees still allocated; final drain within 8 empty commits; check_integrity as a second opinion.",
+         "Decoder is a second implementation of the format; hooks H3 are read-only.", "DESIGN.md 4/C06"),
+ "C10": ("exploration", "generated histories on a recording backend; every durable image decoded by an independent reader (own XXH3 via xxhash-rust) and compared with the reference model",
+         "hist+decoder", "The storage image at the sync that ends every durable commit, compaction and clean close is decoded without redb code: checksums from slot to leaf, key order, routing-key bounds, equal leaf depth, entry counts, no page referenced twice, saved allocator state == reachable + pending free, contents == model commit point.",
+         "Two record layouts are documented only in source comments (Appendix C).", "DESIGN.md 4/C10"),
+ "C12": ("fault_enumeration", "corruption injection: swept/sampled byte, run, page-swap, god-byte and length alterations of generated closed images; oracle = never Ok(true)/Ok(false) with contents other than one commit point of the reference model",
+         "hist+corrupt", "Generated closed images x classified alterations (header sweep, checksummed bytes, slack, free pages, swaps, truncation/extension); after open + check_integrity the served contents must be exactly one commit point whenever Ok(_) is returned; a second check after a repair must be Ok(true). Built without debug assertions.",
+         "Panics on damaged files are counted as reported abnormally.", "DESIGN.md 4/C12"),
+ "C14": ("exploration", "model-based property testing of the buddy allocator and the page manager's region logic against a bitset model; bounded-exhaustive enumeration of all op sequences for small capacities",
+         "alloc", "Generated and exhaustively enumerated alloc/alloc_lowest/free/record_alloc/resize/reload sequences against a bitset model with iff-conditions for every return value; page-manager level: no growth while an existing region has a suitable block.",
+         "Wrapper hooks H4 expose the crate-private allocator; shrink only by trailing free pages.", "DESIGN.md 4/C14"),
  "C15": ("exploration", "property-based testing of pure functions: generated pairs/triples of values of 33 key types vs Rust Ord, round-trip and separator contract; exhaustive enumeration of small domains",
          "types", "Seeded generation of value triples for every built-in key type (biased to extremes, shared prefixes, UTF-8 boundaries) plus complete enumeration of small domains; compare == Ord, antisymmetry, transitivity, round-trip, separator validity (length, decodes, re-encodes, a <= s < b).",
          "Reference order is Rust's Ord on a mirrored owned value; uuid/chrono types not covered.", "DESIGN.md 4/C15"),
@@ -92,6 +104,9 @@ def main():
         },
         "engines": [
             {"name": "tableops", "path": "harness/src/tableops.rs", "serves_properties": ["C04", "C09", "C18"], "kind_free_text": "single-table op interpreter + BTreeMap model over generated tapes"},
+            {"name": "decoder", "path": "harness/src/decoder.rs", "serves_properties": ["C06", "C10", "C12"], "kind_free_text": "independent reader of the v3 file format (header, slots, B-tree pages, catalog records, multimap collections, page lists, savepoint records, saved allocator state) with its own XXH3"},
+            {"name": "alloc", "path": "harness/src/c14.rs", "serves_properties": ["C14"], "kind_free_text": "bitset model of buddy allocator / page manager regions"},
+            {"name": "types", "path": "harness/src/c15.rs", "serves_properties": ["C15"], "kind_free_text": "typed value generators and Ord oracle for 33 key types"},
             {"name": "hist", "path": "harness/src/hist.rs", "serves_properties": ["C01", "C02", "C05", "C07", "C08", "C11", "C13", "C17", "C20"], "kind_free_text": "history state machine (transactions, savepoints, readers, catalog, reopen, compact) with a reference model of commit points"},
             {"name": "crashsim", "path": "harness/src/crash.rs", "serves_properties": ["C01", "C07", "C08", "C11", "C13", "C20"], "kind_free_text": "recording / fault-injecting / contract-monitoring StorageBackend and crash-state enumerator"},
         ],
